@@ -5,6 +5,10 @@
   MSP430 16-bit core (NakenVerif.Msp430.AsmRange): msp430_encode_rejects_unfit (every mnemonic and alias),
   msp430_encode_injective_mod_field, msp430_encode_injective_imm16, msp430_encode_exact_field, msp430_jump_range,
   table_alias_rows, table_jump_rows
+  MOS 6502 / 65C02 (NakenVerif.M6502.AsmRange): m6502_encode_rejects_unfit, m6502_imm_range, m6502_addr_range,
+  m6502_zp_only_range, m6502_zp_form_only_range, m6502_branch_range, m6502_bbr_range, m6502_encode_injective_mod_field,
+  m6502_encode_injective_imm8, m6502_encode_injective_addr, m6502_encode_injective_branch, m6502_encode_exact_field
 -/
 import NakenVerif.Riscv.Props
 import NakenVerif.Msp430.Fixpoint
+import NakenVerif.M6502.Fixpoint
